@@ -78,6 +78,9 @@ def mutants_of(raw):
             for v in (0, 2, 99, 255):
                 if v != cur:
                     out.append(('pdv-id@%d=%d' % (off, v), put(raw, off, 1, v)))
+    # well-formed multi-byte UTF-8 in text fields (AE titles at 10..41, UIDs further on)
+    for pos in sorted({10, 14, 26, 30, 84, 100} & set(range(6, n - 1))):
+        out.append(('utf8@%d' % pos, raw[:pos] + b'\xc3\x89' + raw[pos + 2:]))
     # non-ASCII / invalid UTF-8 in the body
     for pos in sorted({10, 26, 80, 90, n - 2} & set(range(6, n))):
         out.append(('byte@%d=FF' % pos, raw[:pos] + b'\xff' + raw[pos + 1:]))
@@ -133,6 +136,18 @@ def base_pdus():
                                              {'t': 0x56, 'r': 0, 'uid': '1.2.3.4', 'info': b'\x01\x02'},
                                              {'t': 0x58, 'r': 0, 'type': 2, 'rsp': 1, 'prim': 'user', 'sec': 'pw'},
                                              {'t': 0x55, 'r': 0, 'name': 'VERSION'}]}])))]
+
+
+def invalid_pdata(frame):
+    """A well-framed P-DATA-TF carrying a PDV without message control header or with reserved header bits set
+    (PS3.8 Annex E.2): an invalid PDU parameter value."""
+    if frame[0] != 4:
+        return False
+    try:
+        p = refpdu.parse_pdu(frame)
+    except refpdu.RefError:
+        return False
+    return any(len(v['data']) < 1 or v['data'][0] > 3 for v in p['pdvs'])
 
 
 def certainly_undecodable(frame):
